@@ -680,6 +680,20 @@ impl BinArchive {
     }
 }
 
+#[cfg(feature = "mila_verif")]
+impl BinArchive {
+    /// Verification-only observer: pending c-strings with their cell addresses, sorted.
+    pub fn verif_cstrings(&self) -> Vec<(String, Vec<usize>)> {
+        let mut result: Vec<(String, Vec<usize>)> = self
+            .cstrings
+            .iter()
+            .map(|(k, v)| (k.clone(), v.clone()))
+            .collect();
+        result.sort();
+        result
+    }
+}
+
 #[cfg(test)]
 mod tests {
     use super::BinArchive;
